@@ -61,6 +61,7 @@ type Check struct {
 	Explanation string
 	NotDecided  string
 	Assumptions []string
+	Variants    []variantResult
 	known       []KnownFinding
 	minInst     map[string]int
 	seenInst    map[string]bool
@@ -236,6 +237,7 @@ func (c *Check) writeEvidence(out string, wall time.Duration, seed int) int {
 			"rule":                "one obligation per rule instance (call site, path query, field writer, table entry) found in the current source; non-trivial = the verdict needed a path, dataflow, fact or table-agreement query over a distinct construct (pure look-ups and anchor counts are not counted)",
 			"samples":             c.Obls,
 			"analysed":            c.Stats,
+			"variants":            c.Variants,
 			"exhaustive":          true,
 			"checker_cmd":         fmt.Sprintf("./run.sh %s %s", c.Prop, c.Tier),
 			"trusted_base":        []string{"go/types and go/ssa (x/tools v0.50.0)", "Go 1.26.8 toolchain (go list, export data)"},
